@@ -47,3 +47,12 @@ PROPS['C18'] = dict(
     assumptions=[],
     domain=[],
 )
+
+PROPS['C12'] = dict(
+    title='Edit distance equals the reference metric and operations() is a minimal script',
+    groups=[dict(template='c12_edit.rs', rlimit=400)],
+    claim='',
+    not_covered=[],
+    assumptions=[],
+    domain=[],
+)
